@@ -1,0 +1,63 @@
+//go:build verif
+// +build verif
+
+package leanhelix
+
+import (
+	"sync"
+
+	"github.com/orbs-network/lean-helix-go/services/interfaces"
+	"github.com/orbs-network/lean-helix-go/services/leanhelixterm"
+	"github.com/orbs-network/lean-helix-go/services/rawmessagesfilter"
+	"github.com/orbs-network/lean-helix-go/state"
+)
+
+// Hooks for the verification harness under /verif. Nothing here runs unless a test installs hooks.
+//
+// WorkerIdle / MainIdle are called at the top of every loop iteration, before the select: a blocking
+// implementation turns the loop into a step-by-step machine (the harness makes exactly one input
+// ready, releases the gate and waits for the loop to come back to it).
+// MainEvent is called inside the main loop's case bodies, after the state change it names.
+type VerifHooks struct {
+	WorkerIdle func()
+	MainIdle   func()
+	MainEvent  func(ev string, h uint64, v uint64)
+}
+
+var verifRegistry sync.Map // *WorkerLoop | *MainLoop -> *VerifHooks
+
+func (lh *WorkerLoop) VerifSetHooks(h *VerifHooks) { verifRegistry.Store(lh, h) }
+func (m *MainLoop) VerifSetHooks(h *VerifHooks)    { verifRegistry.Store(m, h) }
+
+func verifWorkerIdle(lh *WorkerLoop) {
+	if h, ok := verifRegistry.Load(lh); ok && h.(*VerifHooks).WorkerIdle != nil {
+		h.(*VerifHooks).WorkerIdle()
+	}
+}
+
+func verifMainIdle(m *MainLoop) {
+	if h, ok := verifRegistry.Load(m); ok && h.(*VerifHooks).MainIdle != nil {
+		h.(*VerifHooks).MainIdle()
+	}
+}
+
+func verifMainEvent(m *MainLoop, ev string, h uint64, v uint64) {
+	if hk, ok := verifRegistry.Load(m); ok && hk.(*VerifHooks).MainEvent != nil {
+		hk.(*VerifHooks).MainEvent(ev, h, v)
+	}
+}
+
+// Accessors to unexported parts, so a deterministic scheduler can feed the real worker loop.
+
+func (lh *WorkerLoop) VerifPostElection(trigger *interfaces.ElectionTrigger) {
+	lh.electionChannel <- trigger
+}
+
+func (lh *WorkerLoop) VerifPostUpdateState(prevBlock interfaces.Block, prevBlockProofBytes []byte) {
+	lh.workerUpdateStateChannel <- &blockWithProof{block: prevBlock, prevBlockProofBytes: prevBlockProofBytes}
+}
+
+func (lh *WorkerLoop) VerifTerm() *leanhelixterm.LeanHelixTerm          { return lh.leanHelixTerm }
+func (lh *WorkerLoop) VerifFilter() *rawmessagesfilter.RawMessageFilter { return lh.filter }
+func (lh *WorkerLoop) VerifState() *state.State                         { return lh.state }
+func (m *MainLoop) VerifWorker() *WorkerLoop                            { return m.worker }
